@@ -125,6 +125,55 @@ func init() {
 					out := decodeMeasured(c, "hostile-length", x, func() string { return t.String() + ": hsms.Parse(" + h.Hex(x) + ")" })
 					c.Case(0, true, out)
 				}})
+			// the same hostile items behind a LYING message length (declares more than the input holds)
+			lies := []uint32{0x01000000, 0x00FFFFFF + 14, 0x7FFFFFFF, 0xFFFFFFFF, 0x000000FF}
+			sp = append(sp, h.Space{Name: "hostile-lengths-behind-a-lying-message-length", Count: uint64(len(hs) * len(lies)), ChunkHint: 256,
+				Describe: func(i uint64) interface{} {
+					return fmt.Sprintf("%s; message length field = %#x", hs[i/uint64(len(lies))].String(), lies[i%uint64(len(lies))])
+				},
+				Run: func(c *h.Ctx, i uint64) {
+					t := hs[i/uint64(len(lies))]
+					if t.depth > 3 {
+						c.Case(0, false, "skip-deep")
+						return
+					}
+					x := t.bytes()
+					l := lies[i%uint64(len(lies))]
+					x[0], x[1], x[2], x[3] = byte(l>>24), byte(l>>16), byte(l>>8), byte(l)
+					out := decodeMeasured(c, "lying-message-length", x, func() string {
+						return t.String() + fmt.Sprintf(" with message length %#x: hsms.Parse(%s)", l, h.Hex(x))
+					})
+					c.Case(0, true, out)
+				}})
+			// sequences: the verdict and the cost of decoding an input must not depend on what was decoded before
+			seqAlpha := [][]byte{
+				hdr(1, 1, nil), hdr(1, 1, []byte{0x41, 0x02, 'o', 'k'}), hdr(1, 1, []byte{0x41, 0x01, 0x80}), hdr(1, 1, []byte{0x41, 0x03, 'a', 0xFF, 'b'}),
+				hdr(1, 1, []byte{0x41, 0x00}), hdr(1, 1, []byte{0x01, 0x02, 0x41, 0x01, 'x', 0xA5, 0x01, 0x07}), hdr(1, 1, []byte{0x01, 0x01}), hdr(1, 1, []byte{0x21, 0x01}),
+				hdr(1, 1, []byte{0x91, 0x04, 0x7F, 0xC0, 0x00, 0x00}), hdr(1, 1, []byte{0x91, 0x04, 0x3F, 0x80, 0x00, 0x00}), hdr(1, 1, []byte{0x65, 0x01, 0xFF}), hdr(1, 1, []byte{0x0D, 0x01, 0x00}),
+				hdr(1, 2, []byte{0x25, 0x01, 0x02}), hdr(0x81, 2, nil), hdr(1, 1, []byte{0x03, 0xFF, 0xFF, 0xFF}), hdr(1, 1, []byte{0x43, 0xFF, 0xFF, 0xFF, 'a'}),
+				{0, 0, 0, 10, 0xFF, 0xFF, 0, 0, 0, 5, 1, 2, 3, 4}, {0, 0, 0, 10, 0, 1, 0, 0, 0, 8, 1, 2, 3, 4}, {0, 0, 0, 10, 0, 1, 0, 0, 1, 0, 1, 2, 3, 4}, {0, 0}, nil,
+				hdr(1, 1, append([]byte{0x41, 0x21}, []byte("a text of thirty-three characters!")[:33]...)), hdr(1, 1, []byte{0xB1, 0x04, 0xFF, 0xFF, 0xFF, 0xFF}), hdr(1, 1, []byte{0xA1, 0x08, 0xFF, 0xFF, 0xFF, 0xFF, 0xFF, 0xFF, 0xFF, 0xFF}),
+			}
+			na := len(seqAlpha)
+			sp = append(sp, h.Space{Name: "sequences-of-three-decodes", Count: uint64(na * na * na), ChunkHint: 64,
+				Describe: func(i uint64) interface{} {
+					d := unrank(i, na, na, na)
+					return fmt.Sprintf("decode %x, then %x, then %x in one process", seqAlpha[d[0]], seqAlpha[d[1]], seqAlpha[d[2]])
+				},
+				Run: func(c *h.Ctx, i uint64) {
+					d := unrank(i, na, na, na)
+					for step, k := range d {
+						x := append([]byte{}, seqAlpha[k]...)
+						out := decodeMeasured(c, "sequence", x, func() string {
+							return fmt.Sprintf("decode #%d of the sequence %x | %x | %x", step+1, seqAlpha[d[0]], seqAlpha[d[1]], seqAlpha[d[2]])
+						})
+						_, verdict, _ := ref.Decode(x)
+						if (out == "accepted") != (verdict != ref.Reject) && verdict != ref.Either && out != "panic" && out != "over-bound" {
+							c.Fail("verdict-depends-on-history", fmt.Sprintf("decode #%d of the sequence %x | %x | %x", step+1, seqAlpha[d[0]], seqAlpha[d[1]], seqAlpha[d[2]]), "outcome "+out)
+						}
+					}
+					c.Case(0, true, "sequence")
+				}})
 			// long honest inputs
 			kmax := 18
 			if tier == "thorough" {
